@@ -94,7 +94,7 @@ def _point_map_by_runs(ctx, out, fn, name, why):
     elif name == "scale":
         cases = [((a, b), (X * a, Y * b)) for a in vals for b in vals]
     else:
-        cases = [((t,), (X * math.cos(t) - Y * math.sin(t), X * math.sin(t) + Y * math.cos(t))) for t in (0.0, 0.75, -2.0, math.pi / 2)]
+        cases = [((t,), (X * math.cos(t) - Y * math.sin(t), X * math.sin(t) + Y * math.cos(t))) for t in (0.0, 0.75, -2.0, math.pi / 2, -math.pi / 2, math.pi, -math.pi, 3 * math.pi / 2, 2 * math.pi)]      # ... and every right angle, both ways
     wrong = []
     for args, want in cases:
         W = World(ctx)
@@ -297,18 +297,23 @@ def _transform_rule(ctx, out, qname, getter, elem_cls_mod, name):
         cases = [((0.75,), {}, rot_ok(0.75, False)), ((0.75, False), {}, rot_ok(0.75, False)), ((1e-12,), {}, rot_ok(1e-12, False)),
                  ((30.0, True), {}, rot_ok(30.0, True)), ((30.0,), {"degrees": True}, rot_ok(30.0, True))]
     for args, kwargs, good in cases:
-        def curve(label, area):
+        def curve(label, area, closing_twin=False):
+            """three control points; with `closing_twin` the last segment ends in a control point of its own (equal to
+            the first one by value): the constructor accepts such a chain, and `vertices` lists every control point
+            object, so this one too"""
             vs = [Elem(f"{label}v{i}") for i in range(3)]
-            segs = tuple(Obj(f"{label}s{i}", ctrlpoints=(vs[i], vs[(i + 1) % 3])) for i in range(3))
-            return Obj(label, vertices=tuple(vs), segments=segs, area=area, is_curve=True), vs
+            ends = vs[1:] + [Elem(f"{label}v0'") if closing_twin else vs[0]]
+            segs = tuple(Obj(f"{label}s{i}", ctrlpoints=(vs[i], ends[i])) for i in range(3))
+            allv = vs + ([ends[-1]] if closing_twin else [])
+            return Obj(label, vertices=tuple(allv), segments=segs, area=area, is_curve=True), allv
         del jcalls[:]
         if getter == "vertices":
-            S, parts = curve("J", 4.0)
+            S, parts = curve("J", 4.0, closing_twin=True)
             curves = []
         else:
             # a region with two holes: the boundary curves are stand-ins whose own move/scale/rotate is the
             # repository's JordanCurve method, so the decision is taken on what happens to the control points
-            made = [curve(f"j{i}", a) for i, a in enumerate((9.0, -1.0, -2.0))]
+            made = [curve(f"j{i}", a, closing_twin=(i == 1)) for i, a in enumerate((9.0, -1.0, -2.0))]
             curves = [c for c, _ in made]
             parts = [v for _, vs in made for v in vs]
             S = Obj("S", jordans=tuple(curves), subshapes=())
